@@ -67,9 +67,12 @@ class _Maps:
 class Union(_Maps, DisjointUnionStrategy):
     """Objects of the parent are the objects of the children (identity bijection)."""
 
+    where = None  # optional: callable object -> index of the child containing it
+
     def forward_map(self, c, obj, children=None):
-        # objects are tagged tuples (child index, payload)
-        return tuple(obj if i == obj[0] else None for i in range(len(self.ch)))
+        # objects are tagged tuples (child index, payload) unless `where` says otherwise
+        idx = self.where(obj) if self.where is not None else obj[0]
+        return tuple(obj if i == idx else None for i in range(len(self.ch)))
 
 
 class Prod(_Maps, CartesianProductStrategy):
